@@ -450,10 +450,10 @@ func c17Gen(r *Rand, tier string) []interface{} {
 func c17GenDeep(r *Rand, tier string) []interface{} {
 	var out []interface{}
 	nR64, nCount, nParse, nListen, nLive := 300, 300, 450, 350, 120
-	siteLimits := []int64{1, 10, 5000}
+	siteLimits := []int64{1, 10, 5000, 70000} // 70000: fastcgi's stdin writer has flushed one 65500-byte record when the limit is hit
 	if tier == "thorough" {
 		nR64, nCount, nParse, nListen, nLive = 4000, 4000, 6000, 5000, 1200
-		siteLimits = []int64{1, 2, 10, 100, 4095, 4096, 5000, 32768, 32769, 70000, 300000}
+		siteLimits = []int64{1, 2, 10, 100, 4095, 4096, 5000, 32768, 32769, 65499, 65500, 65501, 70000, 131000, 300000}
 	}
 	const maxI = int64(math.MaxInt64)
 	bufsFor := func(n int) []int {
